@@ -19,6 +19,7 @@
 // nz   report of the nonza sent by the step.
 // en / inH / ph  StreamAckManager::enabled(), lastIncomingSequenceNumber(), script phase as
 //      observed (what the client asked for).
+#include "QXmppIq.h"
 #include "QXmppMessage.h"
 #include "QXmppNonza.h"
 #include "QXmppPacket_p.h"
@@ -30,7 +31,10 @@
 
 #include <memory>
 
+#include <QSet>
 #include <QXmlStreamWriter>
+
+#include <algorithm>
 
 namespace {
 
@@ -80,6 +84,10 @@ struct Exec {
     int recvNo = 0;
     int lastInH = 0;
     QJsonArray reps;
+    QJsonArray iqDone;      // IQ tasks (QXmppClient::sendIq) that finished during the step
+    QSet<int> pendIq;       // requests whose task has not finished
+    int respNo = 0;         // cycles the response variants
+    int getNo = 0;
     QString nzrep = "None";
     QString bindId;
     bool wireOk = true;
@@ -280,8 +288,10 @@ struct Exec {
             }
             if (tag == "message" || tag == "presence" || tag == "iq") {
                 auto id = x.el.attribute("id");
-                if (!idnum.contains(id) && tag == "presence" && id.startsWith('p')) {
-                    idnum[id] = ++nid;  // initial presence of a new session, first seen now
+                if (!idnum.contains(id) && ((tag == "presence" && id.startsWith('p')) || (tag == "iq" && id.startsWith('g')))) {
+                    // a stanza the library sends itself, first seen now: the initial presence of a new
+                    // session, or the error reply to an incoming IQ get of the script
+                    idnum[id] = ++nid;
                 }
                 if (idnum.contains(id)) {
                     out.append(QJsonObject { { "k", "s" }, { "v", idnum[id] } });
@@ -306,6 +316,15 @@ struct Exec {
     {
         auto o = takeOut();
         o["rep"] = reps;
+        o["iq"] = iqDone;
+        iqDone = {};
+        QList<int> pl = pendIq.values();
+        std::sort(pl.begin(), pl.end());
+        QJsonArray pa;
+        for (int i : pl) {
+            pa.append(i);
+        }
+        o["pend"] = pa;
         o["nz"] = nzrep;
         reps = {};
         nzrep = "None";
@@ -334,10 +353,10 @@ struct Exec {
         if (!c) {
             return false;
         }
-        if (a == "SendStanza" || a == "SendNonza" || a == "Destroy") {
+        if (a == "SendStanza" || a == "SendIqRequest" || a == "SendNonza" || a == "Destroy") {
             return true;
         }
-        if (a == "Ack" || a == "Req" || a == "RecvStanza" || a == "RecvNonza") {
+        if (a == "Ack" || a == "Req" || a == "RecvStanza" || a == "RecvNonza" || a == "RecvIqResponse" || a == "RecvIqGet") {
             return ph == "Up" && peer.isOpen() && sockConnected();
         }
         if (a == "Loss") {
@@ -375,6 +394,51 @@ struct Exec {
                 reps.append(QJsonObject { { "id", id }, { "r", kindOf(r) } });
             });
             ok = settle();
+        } else if (a == "SendIqRequest") {
+            // the tracked API: QXmppClient::sendIq registers the id with OutgoingIqManager and sends the
+            // request through StreamAckManager like any other stanza; only its IQ task is visible
+            int id = ++nid;
+            auto sid = QStringLiteral("q%1").arg(id);
+            idnum[sid] = id;
+            ev["id"] = id;
+            QXmppIq iq(QXmppIq::Get);
+            iq.setId(sid);
+            iq.setTo(QStringLiteral("example.org"));
+            pendIq.insert(id);
+            c->sendIq(std::move(iq)).then(guard, [this, id](QXmppClient::IqResult &&r) {
+                pendIq.remove(id);
+                QString kind = "Result";
+                if (auto *e = std::get_if<QXmppError>(&r)) {
+                    kind = e->holdsType<QXmppStanza::Error>() ? "Error" : "Failed";
+                }
+                iqDone.append(QJsonObject { { "id", id }, { "r", kind } });
+            });
+            ok = settle();
+        } else if (a == "RecvIqResponse") {
+            // the scripted server answers request number i: id taken from the request as it went over the
+            // wire; result / error, from absent / from the addressee (all four are matched by the tracker)
+            int i = s["i"].toInt();
+            ev["i"] = i;
+            QString rid = idnum.key(i);
+            if (rid.isEmpty() || !rid.startsWith('q')) {
+                return false;
+            }
+            int variant = respNo++ % 4;
+            bool isErr = variant >= 2, withFrom = variant % 2 == 1;
+            ev["kind"] = QString(isErr ? "error" : "result") + (withFrom ? "+from" : "");
+            QString xml = QStringLiteral("<iq type='%1' id='%2'%3>%4</iq>")
+                              .arg(isErr ? "error" : "result", rid, withFrom ? " from='example.org'" : "",
+                                   isErr ? "<error type='cancel'><item-not-found xmlns='urn:ietf:params:xml:ns:xmpp-stanzas'/></error>" : "");
+            ok = serverWrite(xml.toUtf8());
+        } else if (a == "RecvIqGet") {
+            // nobody handles it: the client answers with an error IQ (a stanza it sends itself)
+            ++getNo;
+            ev["kind"] = getNo % 2 ? "get" : "set";
+            ok = serverWrite(QStringLiteral("<iq type='%1' id='g%2' from='a@example.org/x' to='me@example.org/r'>"
+                                            "<query xmlns='urn:qxv:unknown'/></iq>")
+                                 .arg(getNo % 2 ? "get" : "set")
+                                 .arg(connNo * 1000 + getNo)
+                                 .toUtf8());
         } else if (a == "SendNonza") {
             nzrep = "Pending";
             c->stream()->streamAckManager().send(QXmppPacket(QxvNonza())).then(guard, [this](QXmpp::SendResult &&r) {
@@ -475,6 +539,7 @@ struct Exec {
 QXV_DRIVER(sm)
 {
     auto behs = ctx.behaviours();
+    const bool probe = ctx.optInt("probe", 0) != 0;
     LoopPeer peer;
     qint64 expectBytes = 0;
     int n = 0;
@@ -510,9 +575,30 @@ QXV_DRIVER(sm)
             return 2;
         }
         ctx.reset(id, { { "o", x.observe() } });
+        bool complete = true, sawDestroy = false;
         for (const auto &sv : steps) {
+            sawDestroy = sv.toObject()["a"].toString() == "Destroy";
             if (!x.step(sv.toObject())) {
+                complete = false;
                 break;
+            }
+        }
+        // End-of-behaviour probe (--probe=1): model actions that make the client's hidden state visible
+        // before it is destroyed -- <r/> shows the handled count, a cut + <resumed h='0'/> shows the whole
+        // unacknowledged queue.  They are logged and validated like any other step.
+        if (probe && complete && !sawDestroy && x.fail.isEmpty()) {
+            bool go = true;
+            if (go && x.ph == "Up") {
+                go = x.step({ { "a", "Req" } });
+            }
+            if (go && (x.ph == "Up" || x.ph == "NegoResume" || x.ph == "NegoEnable")) {
+                go = x.step({ { "a", "Loss" } });
+            }
+            if (go && x.ph == "Down") {
+                go = x.step({ { "a", "Reconnect" }, { "sm", true } });
+            }
+            if (go && x.ph == "NegoResume") {
+                go = x.step({ { "a", "ResumeOk" }, { "h", 0 } });
             }
         }
         if (!x.fail.isEmpty()) {
